@@ -317,7 +317,7 @@ KINDS = [
 
 
 # number of concrete variants of a message class (the model sees the class only)
-VARIANTS = {'open': 2, 'openLow': 2, 'operational': 4, 'notification': 3, 'tooLong': 5, 'badLength': 4, 'unknownType': 5, 'badMarker': 4, 'update': 3}
+VARIANTS = {'open': 2, 'openLow': 2, 'openHold1': 2, 'operational': 4, 'notification': 3, 'tooLong': 5, 'badLength': 4, 'unknownType': 5, 'badMarker': 4, 'update': 3}
 
 
 class Remote:
@@ -356,6 +356,8 @@ class Remote:
                 # valid UTF-8 that is not ASCII (a name that is not UTF-8 at all makes the OPEN malformed: 2/0, another class)
                 host, dom = [(b'z\xc3\xbcrich-rr1', b'ex\xc3\xa4mple.net')][variant - 1]
                 return self.with_hostname(base, host, dom)
+            if kind == 'openHold1':
+                return self._open_patch(3, struct.pack('!H', 2))  # the other Hold Time RFC 4271 4.2 forbids
             if kind == 'operational':
                 adv = ['maintenance \u00e0 22h'.encode(), b'\xff\xfe\x80 reboot', '\u8ba1\u5212\u7ef4\u62a4'.encode()][variant - 1]
                 return frame(6, bytes([0, 1 + (variant % 2)]) + struct.pack('!H', 3 + len(adv)) + bytes([0, 1, 1]) + adv)
@@ -1115,6 +1117,15 @@ def systematic_scripts() -> list[tuple[list[list], dict, str]]:
                          [['recv', 1, 'keepalive'], ['recv', 1, 'operational', 1]], [['holdExpired']], [['recv', 1, 'keepalive'], ['tick'], ['teardown', 2], ['tick']]):
                 for api in ({}, {'api_forward': True}):
                     out.append((base + tail + TAIL, dict(api, routes=1, hold=9), f'open-variant{"-fwd" if api else ""}/{k}#{v}/{tail[-1][0]}'))
+    # every OPEN class as THE OPEN of the session, under every kind of local hold time (0 = no keepalives, the
+    # smallest legal one, the default) and on both sides of the connection: what an OPEN is answered with is a
+    # function of the OPEN, whatever the local configuration makes of the negotiated values
+    for hold in (0, 3, 180):
+        for k in OPENISH + ('openVersion', 'openOptParam', 'openShort'):
+            for v in range(VARIANTS.get(k, 1)):
+                ev = ['recv', 1, k] + ([v] if v else [])
+                out.append(([['start'], ['connectOk'], ev, ['recv', 1, 'keepalive'], ['tick'], ['recv', 1, 'update']] + TAIL, {'hold': hold, 'routes': 1}, f'the-open/hold{hold}/{k}#{v}'))
+                out.append(([['start'], ['incoming'], ev, ['recv', 1, 'keepalive'], ['tick']] + TAIL, {'hold': hold, 'passive': True}, f'the-open-passive/hold{hold}/{k}#{v}'))
     return out
 
 
